@@ -270,3 +270,36 @@ Print Assumptions C15_known_class_decidable.
 Print Assumptions C15_huffman_encode_is_rfc.
 Print Assumptions C15_string_decode_sound.
 Print Assumptions C15_string_raw_roundtrip.
+
+(* ---------------- decoding from a NON-CONTIGUOUS `Buf` (round 3) ----------------
+   Model/ChunkedBuf.v: a queue of non-empty chunks with the three required Buf methods ([cb_wf]: no empty chunk, the
+   bytes::Buf contract); Model/ChunkedQpack.v: prefix_int::decode (every octet through `buf.get::<u8>()` = remaining() check +
+   get_u8) and prefix_string::decode (remaining(), copy_to_bytes(len) = BytesMut::put(take(len))) written against the
+   bytes-crate provided methods, themselves loops over chunk() / advance(). *)
+From H3V Require Import Model.ChunkedBuf Model.ChunkedQpack Proofs.ChunkedBufProofs Proofs.ChunkedQpackProofs.
+
+(* for EVERY chunking (cuts inside the continuation octets included): the same flags and value and a buffer left behind
+   that holds exactly the flat decoder's rest (still without an empty chunk), or the same error, or the same panic site *)
+Theorem C15_prefix_int_any_chunking :
+  forall size cs, cb_wf cs ->
+    res_flat (pi_decode_buf size cs) = pi_decode size (concat cs) /\
+    (forall f v cs', pi_decode_buf size cs = Ok (f, v, cs') -> cb_wf cs').
+Proof. exact pi_decode_buf_flat. Qed.
+
+(* string literals of any length: cuts inside the length, between length and payload, inside the raw or Huffman payload *)
+Theorem C15_prefix_string_any_chunking :
+  forall size cs, cb_wf cs ->
+    res_flat (ps_decode_buf size cs) = ps_decode size (concat cs) /\
+    (forall v cs', ps_decode_buf size cs = Ok (v, cs') -> cb_wf cs').
+Proof. exact ps_decode_buf_flat. Qed.
+
+Example C15_prefix_int_any_chunking_inhabited :
+  pi_decode_buf 5 [[95]; [154]; [10; 7]] = Ok (2, 1337, [[7]]) /\ pi_decode_buf 5 [[95]; [154]] = Err PiUnexpectedEnd.
+Proof. split; vm_compute; reflexivity. Qed.
+Example C15_prefix_string_any_chunking_inhabited :
+  ps_decode_buf 6 [[99; 168]; [116]; [151; 7]] = Ok ([110; 97; 109; 101], [[7]]) /\
+  ps_decode_buf 8 [[3; 97]; [98]; [99; 100]] = Ok ([97; 98; 99], [[100]]).
+Proof. split; vm_compute; reflexivity. Qed.
+
+Print Assumptions C15_prefix_int_any_chunking.
+Print Assumptions C15_prefix_string_any_chunking.
